@@ -110,6 +110,9 @@ func floatFixSweep[S constraints.Float, D constraints.Integer](w *numWriter, rng
 	for i := range xs {
 		w.emit(&NEvent{Op: "P", F: floatJ(float64(xs[i])), Y: numOfInt(ys[i])})
 	}
+	// the same inputs in random order through small multi-channel buffers (quiet and loud samples mixed)
+	w.start(&NEvent{Fam: "floatfix", Fn: fn, STy: sty, DTy: dty, Sd: floatBits[S](), Ds: b2i(isSigned[D]()), Dd: bitsOf[D](), Uo: 1})
+	shuffledBlocks(rng, conv, xs, 600, func(x S, y D) { w.emit(&NEvent{Op: "P", F: floatJ(float64(x)), Y: numOfInt(y)}) })
 }
 
 // fixFloatSweep: C09 for one instantiation; back is the matching float -> fixed function.
@@ -141,6 +144,8 @@ func fixFloatSweep[S constraints.Integer, D constraints.Float](w *numWriter, rng
 		w.emit(&NEvent{Op: "P", X: numOfInt(xs[i]), G: floatJ(float64(gs[i]))})
 		w.emit(&NEvent{Op: "RT", X: numOfInt(xs[i]), G: floatJ(float64(gs[i])), Z: numOfInt(zs[i])})
 	}
+	w.start(&NEvent{Fam: "fixfloat", Fn: fn, STy: sty, DTy: dty, Ss: b2i(isSigned[S]()), Sd: sd, Dd: floatBits[D](), P: p, Uo: 1})
+	shuffledBlocks(rng, conv, xs, 300, func(x S, y D) { w.emit(&NEvent{Op: "P", X: numOfInt(x), G: floatJ(float64(y))}) })
 	if exhaustive16 && sd == 32 && p == 53 { // thorough tier (through float64; float32 cannot hold 32-bit codes and nothing is claimed): the round trip of EVERY 32-bit code, as runs of constant z - x
 		fixFloatRoundTrips32(w, conv, back)
 	}
